@@ -24,6 +24,7 @@ type GenParams struct {
 	CompactKinds []string
 	SingleVer    int // 0 = vary, else fixed version for the whole history (size trims)
 	IxProbe      bool
+	Epoch0       bool // times relative to the Unix epoch (tiny absolute values)
 	WBackup      int
 	ROPct        int // percentage of reopens that are read-only
 	IxProbeExtra int
@@ -96,7 +97,11 @@ func (g *genState) msg() MsgSpec {
 	}
 	switch g.p.TimeMode {
 	case "mono":
-		g.t += int64(pick(g.rng, []int{0, 0, 0, 1, 1, 2, 3}))
+		if g.h.Epoch0 {
+			g.t += int64(pick(g.rng, []int{0, 0, 0, 1})) // stays below the offsets
+		} else {
+			g.t += int64(pick(g.rng, []int{0, 0, 0, 1, 1, 2, 3}))
+		}
 		m.T = g.t
 	case "spaced":
 		g.t += 100000 * int64(pick(g.rng, []int{0, 1, 1, 2}))
@@ -180,6 +185,10 @@ func genHistory(id int, seed int64, p GenParams) *History {
 	h.Keys, h.Times = ic&1 == 1, ic&2 == 2
 	h.Mono = p.TimeMode == "mono" || p.TimeMode == "spaced"
 	g := &genState{rng: rng, p: p, gone: map[int64]bool{}, h: h, t: 1000, newver: 2}
+	if p.Epoch0 && p.TimeMode == "mono" {
+		h.Epoch0 = true
+		g.t = 0 // absolute times 0, 1, 2, ... microseconds after the Unix epoch: as small as the offsets
+	}
 	if p.TimeMode == "spaced" || p.TimeMode == "spacedany" {
 		g.t = -int64(p.Steps*p.MaxBatch+10) * 200000 // in the past, so that "now - age" cut-offs make sense
 		g.t0 = g.t
